@@ -9,7 +9,8 @@
 //	entry <res> <batch> <nargs> <val|+>* <natt> <att>*   (`+` starts another WithArgs option; att = key=val | @name | !key=val)
 //	sweep <res> <batch> <prefix> <lo> <hi>   one entry per k in [lo,hi) with the single argument <prefix>k; run-length encoded results
 //
-// A value is `v:<kind>:<text>`: i int, l int64, s string, b bool, f float64 bits, t struct{A int;B string}, n nil.
+// A value is `v:<kind>:<text>`: i int, l int64, s string, b bool, f float64 bits, t struct{A int;B string}, n nil,
+// p struct{A,B string} as a~b, a [2]string as a~b, A [2]int as i~j ('.' in a string field stands for a space).
 package c05
 
 import (
@@ -120,10 +121,37 @@ func val(s string) interface{} {
 			panic("bad struct " + s)
 		}
 		return pair{A: int(vh.I(q[0])), B: q[1]}
+	case "p":
+		// struct of two strings; '.' in the text stands for a space, so that distinct values can print identically
+		// with %v ({acme corp bob}): v:p:acme.corp~bob vs v:p:acme~corp.bob
+		a, b := two(p[2])
+		return pair2{A: a, B: b}
+	case "a":
+		a, b := two(p[2])
+		return [2]string{a, b}
+	case "A":
+		q := strings.SplitN(p[2], "~", 2)
+		if len(q) != 2 {
+			panic("bad array " + s)
+		}
+		return [2]int{int(vh.I(q[0])), int(vh.I(q[1]))}
 	case "n":
 		return nil
 	}
 	panic("bad value kind " + s)
+}
+
+type pair2 struct {
+	A string
+	B string
+}
+
+func two(s string) (string, string) {
+	q := strings.SplitN(s, "~", 2)
+	if len(q) != 2 {
+		panic("bad composite " + s)
+	}
+	return strings.ReplaceAll(q[0], ".", " "), strings.ReplaceAll(q[1], ".", " ")
 }
 
 func dash(s string) string {
